@@ -72,7 +72,7 @@ def random_pythtb(rng, ctx):
         per = list(range(dim_r))
     spinful = bool(rng.random() < 0.45)
     norb = int(rng.integers(1, 5 if not spinful else 4))
-    pmode = ["inside", "outside", "negative", "integer_edge"][int(rng.integers(4))]
+    pmode = ["inside", "inside", "outside", "negative", "integer_edge"][int(rng.integers(5))]
     lat = random_cell(rng, dim_r)
     orb = random_positions(rng, norb, dim_r, pmode)
     legacy = bool(rng.random() < 0.2)
@@ -427,7 +427,7 @@ def case(ctx, rng, idx, state):
 if __name__ == "__main__":
     harness.main(
         PROP, "exploration", case, setup_fn=setup,
-        tiers=dict(quick=dict(cases=240, shards=8, time=150), thorough=dict(cases=3200, shards=16, time=1000)),
+        tiers=dict(quick=dict(cases=320, shards=8, time=150), thorough=dict(cases=4800, shards=16, time=900)),
         rule="random PythTB models (dim 1-3, possibly fewer periodic directions, 1-4 orbitals, spinless/spinful, positions "
              "inside / outside / negative / on cell edges, on-site none/all/single/accumulated, 1-8 hoppings up to 3 cells "
              "away, scalar / Pauli-vector / 2x2 amplitudes, repeated and explicit conjugate hoppings, legacy tb_model "
